@@ -20,7 +20,7 @@ ASSUMPTIONS = ["a minus sign directly in front of an int literal that does not f
 ENV = {"MSCRIPT_VERIF_TYPED_PRINT": "1"}
 
 L = lambda k, v: ("lit", k, v)
-LEAVES = [L("int", v) for v in (0, 1, 2, 3, 7, 31, 32, 2147483647)] + [L("wide", 2147483648)] + \
+LEAVES = [L("int", v) for v in (0, 1, 2, 3, 7, 31, 32, 2147483647)] + [L("wide", v) for v in (2147483648, 9223372036854775807, 9223372036854775808, 12345678901234567890, 2 ** 127 - 1)] + \
          [L("bigint", v) for v in (0, 1, 5, 2 ** 31, 2 ** 127 - 1)] + [L("float", v) for v in (0.0, 0.5, 1.5, 2.0, 0.1, 16777216.5, 3000000000.5, 1e300, 1e-7, 1e-17, 1e-300, 5e-324)] + \
          [L("byte", v) for v in (0, 1, 2, 255)]
 # the same values in the other spellings the grammar accepts: the folder works on the literal's TEXT
